@@ -485,9 +485,16 @@ static uint64_t canon_hash(void)
             const struct cmi_heap_tag *tg = ord[j];
             uint64_t e = vx_hash_bytes(2, &tg->dsortkey, 8);
             e = vx_mix(e, (uint64_t)tg->isortkey);
-            e = vx_mix(e, (uint64_t)(uintptr_t)tg->item[0]);
+            e = vx_mix(e, (uint64_t)((uintptr_t)tg->item[0] - (uintptr_t)&cmb_event_schedule)); /* ASLR-independent */
             e = vx_mix(e, (uint64_t)des_pidx(tg->item[1]) + 1);
             e = vx_mix(e, (uint64_t)(uintptr_t)tg->item[2]);
+            /* rank of its handle among the pending events: the latent FIFO order decides ties that a
+             * later reschedule / reprioritise can create */
+            uint64_t rank = 0;
+            for (uint64_t q = 0; q < ne; q++) {
+                rank += ord[q]->key < tg->key;
+            }
+            e = vx_mix(e, rank);
             for (const struct cmi_slist_head *w = (const struct cmi_slist_head *)tg->item[3]; w; w = w->next) {
                 const struct cmi_process_waiter *pw = cmi_container_of(w, struct cmi_process_waiter, listhead);
                 e = vx_mix(e, (uint64_t)des_pidx(pw->proc) + 77);
@@ -526,6 +533,9 @@ static void observe(void)
     MON0(observe);
     const uint64_t fp = canon_hash();
     vx_state(fp);
+    if (vx_tracing()) {
+        vx_trace("      <state %016llx>\n", (unsigned long long)fp);
+    }
     if (cfg_prune && !D.abandon && vx_visited(fp)) {
         vx_cut();
         D.abandon = true;
